@@ -99,7 +99,7 @@ def check_C02(tr):
         return out
     init = tr["init"]; method = init["irr"]["irrigation_method"]; eff = float(init["irr"]["AppEff"])
     W = init["weather"]
-    prev_bunds = None
+    prev_zb = None
     for d, f, g, s in day_rows(tr):
         t = d["tsc"]; gs = bool(s[1])
         P = float(W[t, 2])
@@ -112,15 +112,18 @@ def check_C02(tr):
             out.append(V("C02:runoff_bounds", "Runoff=%.9g outside [0, P+Irr+ponded=%.9g] on step %d" % (ro, P + app + d["surf_pre"], t), step=t))
         fm = active_field(tr, gs)
         bunds_on = bool(fm["bunds"]) and fm["z_bund"] > 0.001
+        zb = float(fm["z_bund"]) * 1000.0 if bunds_on else 0.0        # height of the bunds in force today (mm)
         if infl < -TOL:
-            if bunds_on or d["surf_pre"] <= 0 or infl < -d["surf_pre"] - TOL:
-                out.append(V("C02:infl_negative", "Infl=%.9g negative (ponded %.9g, bunds %s) on step %d" % (infl, d["surf_pre"], bunds_on, t), step=t))
-            elif prev_bunds is False:
-                # negative only on the day bunds are REMOVED: the management in force on the previous simulated day had no bunds either,
-                # so there were no bunds to remove and no ponded water of theirs to release
-                out.append(V("C02:infl_negative_no_bunds_removed", "Infl=%.9g negative on step %d although no bunds were in force on the previous simulated day "
-                             "(ponded %.9g at the start of the day on a field without bunds)" % (infl, t, d["surf_pre"]), step=t))
-        prev_bunds = bunds_on
+            # negative only on the day the bunds are removed — or replaced by LOWER ones (the fallow management may have its own, lower
+            # bunds: the water ponded above the new height is released the same way) — and then by no more than the ponded water
+            lowered = prev_zb is not None and zb < prev_zb - 1e-9
+            if not lowered:
+                out.append(V("C02:infl_negative" if bunds_on else "C02:infl_negative_no_bunds_removed",
+                             "Infl=%.9g negative on step %d although the bunds in force were neither removed nor lowered since the previous simulated day "
+                             "(height %.6g mm, before %s; ponded %.9g at the start of the day)" % (infl, t, zb, "%.6g mm" % prev_zb if prev_zb is not None else "n/a", d["surf_pre"]), step=t))
+            elif d["surf_pre"] <= 0 or infl < -d["surf_pre"] - TOL:
+                out.append(V("C02:infl_negative", "Infl=%.9g negative beyond the ponded water %.9g on step %d" % (infl, d["surf_pre"], t), step=t))
+        prev_zb = zb
         if P == 0 and app == 0 and d["surf_pre"] == 0 and (abs(infl) > 0 or abs(ro) > 0):
             out.append(V("C02:dry_day", "dry day with nothing ponded has Infl=%.9g Runoff=%.9g on step %d" % (infl, ro, t), step=t))
         if len(out) > 3: break
